@@ -248,6 +248,68 @@ func ruleC18GCMLayout(c *Ctx) {
 			}
 		}
 		c.check(len(problems) == 0, "aead.cryptoFunc.Decrypt/layout", u.pos(dec.Pos()), "reads nonce from the tail, ciphertext‖tag from the head", strings.Join(problems, "; "))
+		// minimum length: the only length-based rejection is `len(data) < NonceSize()` (or < NonceSize()+Overhead()): the
+		// ciphertext of an empty payload (tag ‖ nonce, 28 bytes) must be accepted
+		data := dec.Params[1]
+		isLen := func(v ssa.Value) bool { return isLenOf(v, data) }
+		isOverhead := func(v ssa.Value) bool {
+			cv, ok := resolve(v).(*ssa.Call)
+			if ok && cv.Call.IsInvoke() && cv.Call.Method.Name() == "Overhead" {
+				return true
+			}
+			return isConstInt(v, 16)
+		}
+		isMin := func(v ssa.Value) bool {
+			if isNonceSize(v) {
+				return true
+			}
+			if b, ok := resolve(v).(*ssa.BinOp); ok && b.Op == token.ADD {
+				return (isNonceSize(b.X) && isOverhead(b.Y)) || (isNonceSize(b.Y) && isOverhead(b.X))
+			}
+			return isConstInt(v, 28)
+		}
+		mentionsLen := func(v ssa.Value) bool {
+			seen := map[ssa.Value]bool{}
+			var walk func(x ssa.Value) bool
+			walk = func(x ssa.Value) bool {
+				x = resolve(x)
+				if seen[x] {
+					return false
+				}
+				seen[x] = true
+				if isLen(x) {
+					return true
+				}
+				if b, ok := x.(*ssa.BinOp); ok {
+					return walk(b.X) || walk(b.Y)
+				}
+				return false
+			}
+			return walk(v)
+		}
+		bad := ""
+		for _, b := range dec.Blocks {
+			if len(b.Instrs) == 0 {
+				continue
+			}
+			iff, ok := b.Instrs[len(b.Instrs)-1].(*ssa.If)
+			if !ok {
+				continue
+			}
+			for _, fct := range normFact(Fact{iff.Cond, true}) {
+				bo, isB := fct.V.(*ssa.BinOp)
+				if !isB || !(mentionsLen(bo.X) || mentionsLen(bo.Y)) {
+					continue
+				}
+				okForm := (bo.Op == token.LSS && isLen(bo.X) && isMin(bo.Y)) || (bo.Op == token.GTR && isMin(bo.X) && isLen(bo.Y)) ||
+					(bo.Op == token.GEQ && isLen(bo.X) && isMin(bo.Y)) || (bo.Op == token.LEQ && isMin(bo.X) && isLen(bo.Y)) ||
+					(bo.Op == token.LSS && isLenMinusNonce(bo.X, data) && isOverhead(bo.Y))
+				if !okForm {
+					bad = u.ipos(iff) + " " + bo.String()
+				}
+			}
+		}
+		c.check(bad == "", "aead.cryptoFunc.Decrypt/min-length", u.pos(dec.Pos()), "length precondition is len(data) < NonceSize() [+ Overhead()]", "Decrypt rejects by a length test other than len(data) < NonceSize()[+Overhead()]: ciphertexts an independent implementation emits (e.g. the 28-byte ciphertext of an empty payload) would be refused: "+bad)
 	}
 	// key size used for generated keys
 	gk := u.Method(pkgApp, "envelopeEncryption", "generateKey")
